@@ -291,6 +291,14 @@ def gen_regs(rng):
     return {"fn": "insert_registers", "circuit": d, "stages": rng.choice([0, 1, 1, 1, 2, 2, 3]), "tags": tags}
 
 
+def gen_regs_bb(rng):
+    """insert_registers on an argument that already holds a flop instance (the registry and the pins of the argument must stay as they are)"""
+    d = lib.rand_dag(rng, rng.randint(2, 3), rng.randint(3, 6), max_fanin=3, p_const=0.1, types=lib.GATES)
+    gates = [n[0] for n in d["nodes"] if n[1] not in ("input", "0", "1", "x")]
+    d = lib.add_flop(rng, d, inst=rng.choice(["r0", "u1", "ff_r"]), on=rng.choice(gates), clk=rng.choice(["clk", "clk", "ck"]))
+    return {"fn": "insert_registers", "circuit": _check_unique(d), "stages": rng.choice([1, 1, 2, 3]), "tags": ["bb-arg"], "with_bb": True}
+
+
 def gen_unroll(rng):
     d = lib.rand_dag(rng, rng.randint(1, 4), rng.randint(1, 7), max_fanin=4, p_const=0.2)
     return {"fn": "acyclic_unroll", "circuit": d, "tags": []}
@@ -314,6 +322,7 @@ def generate(rng, tier):
     m = 6 if tier == "quick" else 30
     for fn in ("limit_fanin", "limit_fanout"):
         out += [gen_with_bb(rng, fn) for _ in range(m)] + [gen_twice(rng, fn) for _ in range(m)] + [gen_kinds(rng, fn) for _ in range(m // 2)]
+    out += [gen_regs_bb(rng) for _ in range(12 if tier == "quick" else 80)]
     out += [gen_regs_args(rng) for _ in range(15 if tier == "quick" else 80)]
     out += [gen_reject(rng, rng.choice(["limit_fanin", "limit_fanout"])) for _ in range(4 if tier == "quick" else 12)]
     out += [gen_regs(rng) for _ in range(45 if tier == "quick" else 200)]
@@ -409,11 +418,27 @@ def impl(case):
         obs["exc"] = type(e).__name__
     if lib.dump_circuit(c) != before:
         obs["argument_mutated"] = True
+    if fn in ("insert_registers", "insert_registers_args"):
+        # the argument is used again: a second call on the same object must do exactly what the first one did
+        try:
+            if fn == "insert_registers":
+                r2 = cg.tx.insert_registers(c, case["stages"])
+            else:
+                r2 = cg.tx.insert_registers(c, case["stages"], ff=ff, d_port=a["d"], q_port=a["q"], other_flop_io=dict(other_before), q_suffix=a["suffix"])
+            second = {"out": lib.dump_circuit(r2)}
+        except (ValueError, KeyError, IndexError, StopIteration, NotImplementedError, ZeroDivisionError, TypeError, AttributeError) as e:
+            second = {"exc": type(e).__name__}
+        if second != {k: obs[k] for k in ("out", "exc") if k in obs}:
+            obs["second_call_differs"] = second.get("exc", "different circuit")
+        if lib.dump_circuit(c) != before:
+            obs["argument_mutated"] = True
     return obs
 
 
 def cres(obs):
-    if "out" in obs and not obs.get("argument_mutated"):
+    if obs.get("argument_mutated") or obs.get("second_call_differs"):
+        return "(Raise OtherError)"      # no case kind accepts this outcome: reported as an oracle failure with the observation in the replay
+    if "out" in obs:
         return "(Ok %s)" % ccirc(obs["out"])
     e = obs.get("exc", "OtherError")
     if e in ("ValueError", "KeyError", "IndexError", "StopIteration", "NotImplementedError"):
@@ -442,6 +467,8 @@ def to_coq(case, obs):
         return f"CFanin {C} {cnat(int(case['k']))} {csteps(obs.get('steps', []))} {cres(obs)}"
     if fn == "limit_fanout":
         return f"CFanout {C} {cnat(int(case['k']))} {csteps(obs.get('steps', []))} {cres(obs)}"
+    if fn == "insert_registers" and case.get("with_bb"):
+        return f"CRegsB {C} {cnat(case['stages'])} {csl(obs.get('order', []))} {cres(obs)}"
     if fn == "insert_registers":
         return f"CRegs {C} {cnat(case['stages'])} {csl(obs.get('order', []))} {cres(obs)}"
     return f"CUnroll {C} {cres(obs)}"
